@@ -76,6 +76,13 @@ def canon(n):
     if not isinstance(n, dict):
         return n
     t = n.get("t")
+    if t == "If":
+        c0 = n["cond"]
+        while isinstance(c0, dict) and c0.get("t") == "Paren":
+            c0 = c0["expr"]
+        if isinstance(c0, dict) and c0.get("t") == "MacroExpr" and c0["mac"]["name"] == "matches" and c0["mac"].get("matches") and c0["mac"]["matches"]["guard"] is None:
+            mm = c0["mac"]["matches"]
+            return canon({**n, "cond": {"t": "Let", "sp": c0["sp"], "pat": mm["pat"], "expr": mm["expr"]}})
     if t == "If" and n.get("else") is not None:
         c = n["cond"]
         while isinstance(c, dict) and c.get("t") == "Paren":
@@ -360,6 +367,8 @@ def _callee_name(e):
         return segs[0]["id"]
     if len(segs) == 2 and segs[0]["id"] == "Self":
         return segs[1]["id"]
+    if len(segs) == 2 and segs[0]["id"][:1].isupper() and segs[0]["args"] is None:
+        return segs[1]["id"]          # `Type::f(..)`: resolved by the (unique) function name; callers filter by their `keep` set
     return None
 
 
